@@ -52,6 +52,8 @@ func init() {
 	c19Date = eng.NewKind(c, "date", judgeDate)
 	c19Tod = eng.NewKind(c, "timeofday", judgeTod)
 	c19Now = eng.NewKind(c, "clock", func(SrcCase) *eng.Fail { return judgeClock() })
+	c19Instant = eng.NewKind(c, "instant", judgeInstant)
+	c19Reloc = eng.NewKind(c, "relocated", judgeReloc)
 }
 
 func floorDiv(a, b int64) int64 {
@@ -368,6 +370,137 @@ func judgeTod(c TodCase) *eng.Fail {
 	return nil
 }
 
+// InstantCase: an instant (Unix seconds) in the worker's zone, reached through an access path.
+type InstantCase struct {
+	Zone string `json:"zone"`
+	Unix int64  `json:"unix"`
+	Via  string `json:"via"`
+}
+
+type c19Rec struct {
+	T    time.Time
+	Name string
+}
+
+var c19Instant *eng.Kind[InstantCase]
+
+func judgeInstant(c InstantCase) *eng.Fail {
+	loc, name, err := workerZone()
+	if err != nil {
+		return eng.F("harness/zone", "zone: %v", err)
+	}
+	if c.Zone != "" && c.Zone != name {
+		return eng.F("harness/zone-mismatch", "this case was recorded under TZ=%s", c.Zone)
+	}
+	t := time.Unix(c.Unix, 0).In(loc)
+	data := map[string]interface{}{"t": t, "rec": map[string]interface{}{"t": t}, "st": c19Rec{T: t, Name: "r"}}
+	v := c.Via
+	what := fmt.Sprintf("instant %d in %s reached as %s", c.Unix, name, v)
+	o, perr := evalWith("$u = useTimezone("+v+", 'Asia/Tokyo'), $a = addDate("+v+", 0, 0, 0), [year("+v+"), month("+v+"), day("+v+"), hour("+v+"), minute("+v+"), second("+v+"), weekDay("+v+"), millSecond("+v+"), millSecond($u), millSecond($a), timeFormat("+v+", '2006-01-02 15:04:05')]", data)
+	if perr != nil || o.panicked || o.err != nil {
+		return eng.F("C19/instant-eval", "%s: %v %v %s", what, perr, o.err, o.panicMsg)
+	}
+	arr, _ := o.val.([]interface{})
+	if len(arr) != 11 {
+		return eng.F("C19/instant-eval", "%s: result %s", what, show(o.val))
+	}
+	f, ok := intsOf(arr[:10], 10)
+	if !ok {
+		return eng.F("C19/instant-eval", "%s: result %s", what, show(o.val))
+	}
+	local := c.Unix + offsetAt(loc, c.Unix)
+	// addDate rebuilds the time from its civil fields: a local reading that occurs twice may come back as
+	// either instant, the reading itself must not change
+	if u9 := floorDiv(f[9], 1000); f[9] != c.Unix*1000 && floorMod(f[9], 1000) == 0 && u9+offsetAt(loc, u9) == local {
+		note("ambiguous_local_time_other_instant", 1)
+		f[9] = c.Unix * 1000
+	}
+	if f[7] != c.Unix*1000 || f[8] != c.Unix*1000 || f[9] != c.Unix*1000 {
+		return eng.F("C19/millSecond", "%s: millSecond, after useTimezone, after addDate(0,0,0) = %d, %d, %d, expected %d", what, f[7], f[8], f[9], c.Unix*1000)
+	}
+	if fl := checkFields(loc, what, f[:8], local); fl != nil {
+		return fl
+	}
+	y, mo, d := civilFromDays(floorDiv(local, 86400))
+	sod := floorMod(local, 86400)
+	want := fmt.Sprintf("%04d-%02d-%02d %02d:%02d:%02d", y, mo, d, sod/3600, sod%3600/60, sod%60)
+	if arr[10] != interface{}(want) {
+		return eng.F("C19/timeFormat", "%s: timeFormat = %s, expected %q", what, show(arr[10]), want)
+	}
+	return nil
+}
+
+// RelocCase: the process installs its own local zone (time.Local reassigned) and then builds dates.
+type RelocCase struct {
+	OffMin  int `json:"off_min"`
+	Y, M, D int
+}
+
+var c19Reloc *eng.Kind[RelocCase]
+
+func judgeReloc(c RelocCase) *eng.Fail {
+	saved := time.Local
+	defer func() { time.Local = saved }()
+	zone := time.FixedZone("VRF", c.OffMin*60)
+	time.Local = zone
+	what := fmt.Sprintf("date(%d,%d,%d) with time.Local = fixed zone %+d min", c.Y, c.M, c.D, c.OffMin)
+	data := map[string]interface{}{"y": float64(c.Y), "m": float64(c.M), "d": float64(c.D)}
+	t0 := time.Now()
+	o, perr := evalWith("$t = date(y,m,d), $n = toDay(), [year($t), month($t), day($t), hour($t), minute($t), second($t), weekDay($t), millSecond($t), year($n), month($n), day($n), hour($n), minute($n), second($n), weekDay($n), millSecond($n), timeFormat($t, '-0700'), timeFormat($n, '-0700')]", data)
+	t1 := time.Now()
+	if perr != nil || o.panicked || o.err != nil {
+		return eng.F("C19/eval", "%s: %v %v %s", what, perr, o.err, o.panicMsg)
+	}
+	arr, _ := o.val.([]interface{})
+	if len(arr) != 18 {
+		return eng.F("C19/eval", "%s: result %s", what, show(o.val))
+	}
+	f, ok := intsOf(arr[:16], 16)
+	if !ok {
+		return eng.F("C19/eval", "%s: result %s", what, show(o.val))
+	}
+	local := normDays(int64(c.Y), int64(c.M), int64(c.D)) * 86400
+	if fl := checkFields(zone, what, f[:8], local); fl != nil {
+		fl.Key = "C19/relocated-" + fl.Key[4:]
+		return fl
+	}
+	off := c.OffMin
+	sign := "+"
+	if off < 0 {
+		sign, off = "-", -off
+	}
+	wantOff := fmt.Sprintf("%s%02d%02d", sign, off/60, off%60)
+	if arr[16] != interface{}(wantOff) || arr[17] != interface{}(wantOff) {
+		return eng.F("C19/relocated-zone", "%s: date and toDay rendered with layout -0700 give %s and %s, the local zone's offset is %s", what, show(arr[16]), show(arr[17]), wantOff)
+	}
+	// toDay: local midnight (in the installed zone) of the call's date
+	okDay := false
+	for _, t := range []time.Time{t0, t1} {
+		l := t.Unix() + int64(c.OffMin*60)
+		if checkFieldsQuiet(f[8:16], floorDiv(l, 86400)*86400, int64(c.OffMin*60)) {
+			okDay = true
+		}
+	}
+	if !okDay {
+		return eng.F("C19/relocated-toDay", "%s: toDay() = %v is not midnight of the call's date in the installed local zone", what, f[8:16])
+	}
+	return nil
+}
+
+// checkFieldsQuiet: do the eight extracted values describe local reading `local` at a fixed offset?
+func checkFieldsQuiet(f []int64, local, off int64) bool {
+	days := floorDiv(local, 86400)
+	sod := floorMod(local, 86400)
+	y, m, d := civilFromDays(days)
+	want := []int64{y, m, d, sod / 3600, sod % 3600 / 60, sod % 60, floorMod(days+4, 7), (local - off) * 1000}
+	for i := range want {
+		if f[i] != want[i] {
+			return false
+		}
+	}
+	return true
+}
+
 func judgeClock() *eng.Fail {
 	loc, _, err := workerZone()
 	if err != nil {
@@ -505,6 +638,37 @@ func runC19(w *eng.W) {
 					}
 				}
 			}
+		}
+	}
+	// instants reached through access paths (incl. the zero instant 0001-01-01T00:00:00Z)
+	instants := []int64{-62135596800, -62135596799, -62135596801, -62135596800 + 86400, 0, 1, -1, 1 << 31, -(1 << 31), 253402300799, 1710054000, 1730613600, 951782400, -2208988800}
+	for _, u := range instants {
+		if !mine() {
+			continue
+		}
+		for _, via := range []string{"t", "rec.t", "this.t", "this.rec.t", "st.T", "(t)", "(null ?? t)", "(true ? rec.t : t)", "rec!.t"} {
+			w.State(1)
+			w.Trans(11)
+			w.Trace(1)
+			w.Note("leg:instant", 1)
+			c := InstantCase{Zone: zone, Unix: u, Via: via}
+			w.Sample("instant", c)
+			c19Instant.Do(w, c)
+		}
+	}
+	// the process installs its own local zone after start-up
+	for _, off := range []int{0, 330, -480, 765, -210, 60, 840, -720} {
+		if !mine() {
+			continue
+		}
+		for _, ymd := range [][3]int{{2024, 1, 1}, {2024, 2, 29}, {1970, 1, 1}, {1969, 12, 31}, {2023, 13, 32}, {2000, 0, 0}, {1, 1, 1}, {9999, 12, 31}, {2024, -3, -5}, {1900, 2, 29}} {
+			w.State(1)
+			w.Trans(18)
+			w.Trace(1)
+			w.Note("leg:relocated", 1)
+			c := RelocCase{OffMin: off, Y: ymd[0], M: ymd[1], D: ymd[2]}
+			w.Sample("relocated", c)
+			c19Reloc.Do(w, c)
 		}
 	}
 	if mine() {
